@@ -557,6 +557,20 @@ class PathState(object):
         self.assume(c if choice else z3.Not(c))
         return choice
 
+    def choose(self, n, why=""):
+        """fork point without a condition: one path per alternative 0..n-1 (decision replay)"""
+        if self.guards:
+            raise NeedFork(why)
+        if self.pos < len(self.trace):
+            choice = self.trace[self.pos]
+            self.pos += 1
+            return choice
+        for k in range(n - 1, 0, -1):
+            self.alternatives.append(self.trace[: self.pos] + [k])
+        self.trace.append(0)
+        self.pos += 1
+        return 0
+
     def prove(self, name, goal, detail=None, kind="vc"):
         """emit an obligation pc => goal, check it now, then assume it"""
         import time
@@ -1771,7 +1785,7 @@ class Engine(object):
                 return obj.fields
             if attr == "__class__":
                 return obj.cls
-            if getattr(obj, "assumed_state", False):
+            if getattr(obj, "assumed_state", False) and attr not in getattr(obj, "extra_fields", ()):
                 # the object's state was assumed by a contract (representation invariant), not
                 # built by the code: an attribute the invariant does not mention needs a contract,
                 # it is not evidence of an AttributeError
